@@ -316,6 +316,10 @@ class Collector(ast.NodeVisitor):
                             else:
                                 # every other loop that yields: how long each round waits decides whether it can spin
                                 self.add("wait_loop", "while " + ast.unparse(n.test)[:50] + ": yield " + ast.unparse(v)[:50])
+                        elif isinstance(y, ast.YieldFrom):
+                            # a loop that delegates each round to another generator: whether a round takes
+                            # simulated time is decided there
+                            self.add("wait_loop", "while " + ast.unparse(n.test)[:50] + ": yield from " + ast.unparse(y.value)[:50])
 
     def scan_closure_events(self, fn):
         """Events stamped with `.now` in `fn`, kept in a local, and emitted by a nested
@@ -452,7 +456,7 @@ def extract(repo=None):
     return sites, nfiles
 
 
-C03_KINDS = ("hash", "id", "uuid", "wallclock", "wallclock_ref", "urandom", "globalrandom", "setiter",
+C03_KINDS = ("hash", "id", "uuid", "wallclock", "wallclock_ref", "urandom", "globalrandom", "setiter", "completion_order",
              "shared_default", "module_state", "global_stmt", "global_writer_call")
 C07_KINDS = ("stale_now", "spin", "neg_time", "event_time", "wait_loop")
 
